@@ -16,3 +16,4 @@ ASSUMPTIONS = ["itertools.groupby groups adjacent equal keys; ChainMap lookup or
 
 def run(project, rep):
     rep.run(G.j_rules, project, rep)
+    rep.run(G.cli_layer_rule, project, rep)
